@@ -291,12 +291,33 @@ def effects_guarded(P, R, cl):
             if not (isinstance(l, dict) and l.get('k') == 'callref' and l.get('callee') in ('strcmp', 'strcasecmp') and const_of(rr) == 0 and op == '=='):
                 return False
             a = l['args']
-            return any(is_var(x, f.params[0]) for x in a) and any(is_field(x, 'name') for x in a)
+
+            def is_service_word(x):
+                if is_var(x, f.params[0]):
+                    return True
+                if is_var(x) and x.get('sc') == 'local':       # the parameter of a folded search helper
+                    sd = f.single_def(x['name'])
+                    return bool(sd) and is_var(sd[1], f.params[0])
+                return False
+            return any(is_service_word(x) for x in a) and any(is_field(x, 'name') for x in a)
+
+        # variables that only ever hold a copy of the slot index (the value a folded search helper hands back)
+        same_idx = {idxv}
+        grew = True
+        while grew:
+            grew = False
+            for t in f.stores():
+                if t.ev['k'] == 'store' and is_var(t.ev.get('lhs')) and t.ev.get('op') == '=' and t.ev['lhs']['name'] not in same_idx:
+                    ds = f.local_defs(t.ev['lhs']['name'])
+                    vals = [(d.ev.get('rhs') if d.ev['k'] == 'store' else d.ev.get('init')) for d in ds]
+                    if vals and all((is_var(v) and v['name'] in same_idx) or (isinstance(v, dict) and v.get('k') == 'mem' and v.get('field') == 'used') for v in vals) and any(is_var(v) and v['name'] in same_idx for v in vals):
+                        same_idx.add(t.ev['lhs']['name'])
+                        grew = True
 
         def slotvar(s):
             """srv = table[idxv] keeps the name test tied to the index."""
             ev = s.ev
-            return ev['k'] == 'store' and is_var(ev.get('lhs')) and ev.get('op') == '=' and (ev.get('rhs') or {}).get('k') == 'idx' and is_var(ev['rhs']['index'], idxv)
+            return ev['k'] == 'store' and is_var(ev.get('lhs')) and ev.get('op') == '=' and (ev.get('rhs') or {}).get('k') == 'idx' and is_var(ev['rhs']['index']) and ev['rhs']['index']['name'] in same_idx
 
         def on_edge(st, e):
             r = rules.edge_rel(e)
